@@ -2,5 +2,17 @@ SPEC_PART = dict(
     props_file="C14_hll",
     legs=[dict(family="hll", focus="malformed", oracles=["no_panic"], profiles=["debug", "release"],
                mask=[2, 3, 7, 8, 9], n_quick=200, n_thorough=4000, panic_is_violation=True)],
-    trusted=[], assumptions=[], covers="hll: placeholder",
+    trusted=["hll: the modelled panic sites of HllSketch::deserialize are the shift by lg_arr, HashSet::update's 'HashSet full', "
+             "AuxMap's three unreachable!()s and Array4's expect()s; slice indexing inside read_exact / Vec allocation are std's",
+             "hll: allocation is not modelled; the harness's counting allocator checks peak <= 64 * len + 1 MiB on every parse"],
+    assumptions=["hll: usize = 64 bits"],
+    covers="hll: hll_deserialize is total -- never Stuck for ANY list of numbers (c14_hll_deserialize_total); Ok => image_wf "
+           "(c14_hll_ok_is_wellformed): list of 8 slots with < 8 coupons, set with probe invariant / exact len / load <= 3/4 / "
+           "lg size in 5..lg_k-3, Hll4 satisfying the full Array4 invariant of C02 for registers <= 63, Hll8 registers <= 63 with exact "
+           "num_zeros (partial: Hll6 only lg_k; Hll4 images without a register at cur_min; value-0 coupons). Seven reader defects were "
+           "found and repaired on the way (D1, D4, D13, array image validation, allocation before length check, COMPACT flag of the "
+           "writer: known_findings.d). Tie: structure-aware mutations of spec-encoded images of every variant (bit/byte flips, boundary "
+           "values in every lg/count/flag field, truncation at every offset, extension, payload damage, random bytes); model and crate "
+           "must agree on Ok/Err and on the dumped state; every Ok value is queried, re-serialized, updated, round-tripped; any panic "
+           "or allocation above 64 * len + 1 MiB is a violation (debug + release).",
 )
